@@ -933,10 +933,72 @@ func (c *inlCtx) tryCall(st ast.Stmt, call *ast.CallExpr, kind callKind, as *ast
 		pre = append(pre, fmt.Sprintf("var %s %s", t, typeStr(sig.Results().At(0).Type())))
 		targets = append(targets, t)
 	}
+	// result unification: `y := f(...)` where f builds a local x and every return is `return x`. Then x *is* y: the
+	// local is renamed to the target, its declaration becomes an assignment and the returns need no copy. The inlined
+	// code reads like the code before the helper was extracted, and the rules keep following one variable.
+	var unified types.Object
+	unifiedDecl := -1
+	if kind == kindAssign && as.Tok == token.DEFINE && nres == 1 && len(targets) == 1 && targets[0] != "_" {
+		if tid, isId := as.Lhs[0].(*ast.Ident); isId && info.Defs[tid] != nil {
+			var retObj types.Object
+			okU := true
+			ast.Inspect(body, func(n ast.Node) bool {
+				switch t := n.(type) {
+				case *ast.FuncLit:
+					return false
+				case *ast.ReturnStmt:
+					if len(t.Results) != 1 {
+						okU = false
+						return true
+					}
+					id, isId := ast.Unparen(t.Results[0]).(*ast.Ident)
+					if !isId {
+						okU = false
+						return true
+					}
+					o, isV := info.Uses[id].(*types.Var)
+					if !isV || o.IsField() || o.Pos() < body.Pos() || o.Pos() > body.End() {
+						okU = false
+						return true
+					}
+					if retObj != nil && retObj != types.Object(o) {
+						okU = false
+					}
+					retObj = o
+				}
+				return true
+			})
+			if okU && retObj != nil {
+				for i, st := range body.List {
+					switch d := st.(type) {
+					case *ast.AssignStmt:
+						if d.Tok == token.DEFINE && len(d.Lhs) == 1 && len(d.Rhs) == 1 {
+							if id, isId := d.Lhs[0].(*ast.Ident); isId && info.Defs[id] == retObj {
+								unifiedDecl = i
+							}
+						}
+					case *ast.DeclStmt:
+						if gd, isG := d.Decl.(*ast.GenDecl); isG && gd.Tok == token.VAR && len(gd.Specs) == 1 {
+							if vs, isV := gd.Specs[0].(*ast.ValueSpec); isV && len(vs.Names) == 1 && len(vs.Values) <= 1 && info.Defs[vs.Names[0]] == retObj {
+								unifiedDecl = i
+							}
+						}
+					}
+				}
+				// the target's type must be the local's type (no implicit conversion through the result type)
+				if unifiedDecl >= 0 && types.Identical(retObj.Type(), sig.Results().At(0).Type()) {
+					unified = retObj
+				}
+			}
+		}
+	}
 	// a target whose name is also declared inside the callee body would be captured by that declaration: such results
 	// go through temporaries that are copied to the real targets after the inlined block
 	var copyBack []string
 	for i, t := range targets {
+		if unified != nil {
+			break
+		}
 		if t == "_" || !declared[strings.SplitN(t, ".", 2)[0]] {
 			continue
 		}
@@ -1008,6 +1070,22 @@ func (c *inlCtx) tryCall(st ast.Stmt, call *ast.CallExpr, kind callKind, as *ast
 				freshIds[i].Name = t
 			}
 		}
+		if unified != nil && (info.Uses[id] == unified || info.Defs[id] == unified) {
+			freshIds[i].Name = targets[0]
+		}
+	}
+	if unified != nil {
+		switch d := fresh.List[unifiedDecl].(type) {
+		case *ast.AssignStmt:
+			d.Tok = token.ASSIGN
+		case *ast.DeclStmt:
+			vs := d.Decl.(*ast.GenDecl).Specs[0].(*ast.ValueSpec)
+			if len(vs.Values) == 1 {
+				fresh.List[unifiedDecl] = &ast.AssignStmt{Lhs: []ast.Expr{ast.NewIdent(targets[0])}, Tok: token.ASSIGN, Rhs: vs.Values}
+			} else {
+				fresh.List[unifiedDecl] = &ast.EmptyStmt{Implicit: false}
+			}
+		}
 	}
 	// named results become locals of the block
 	var resultNames []string
@@ -1039,6 +1117,9 @@ func (c *inlCtx) tryCall(st ast.Stmt, call *ast.CallExpr, kind callKind, as *ast
 	var rewriteReturns func(list []ast.Stmt, top bool) []ast.Stmt
 	mkAssign := func(ret *ast.ReturnStmt) []ast.Stmt {
 		var out []ast.Stmt
+		if unified != nil {
+			return nil // `return x` with x unified with the target: nothing to copy
+		}
 		if nres > 0 {
 			var rhs []ast.Expr
 			if len(ret.Results) == 0 {
